@@ -129,6 +129,20 @@ fn ep_stream(b: &[u8]) {
     }
     let _ = st.flush();
     let _ = st.to_string();
+    // a caller that keeps writing after an error (io::copy of a later file into the same
+    // collector, a retry loop): every chunking into 1..4 pieces, errors ignored, then more data
+    let mut st = SummaryStream::new();
+    let q = b.len() / 4;
+    for chunk in [&b[..q], &b[q..2 * q], &b[2 * q..3 * q], &b[3 * q..], b"\n\n", b"PKGNAME=x-1\n\n", b"", b"\xff\n\n", b"COMMENT=c\n"] {
+        let _ = st.write(chunk);
+    }
+    let _ = (st.entries().len(), st.to_string().len());
+    let mut st = SummaryStream::new();
+    for byte in b.iter().take(48) {
+        let _ = st.write(std::slice::from_ref(byte));
+    }
+    let _ = st.write(b"\n\n");
+    let _ = st.entries().len();
 }
 
 fn ep_plist(b: &[u8]) {
@@ -786,8 +800,8 @@ fn heavy_inputs(reps: usize) -> Vec<(usize, Vec<u8>)> {
 
 // ------------------------------------------------------------------ pkgdb trees
 
-const DB_SHAPES: [&[u8]; 12] = [
-    b"foo", b"-1", b"a-", b"-", b"a-b-1.0nb2", b"x\xff-1", b"plainfile-1", b"broken-1", b"half-1", b"dangling-1", b"loop-1", b"linked-1",
+const DB_SHAPES: [&[u8]; 13] = [
+    b"foo", b"-1", b"a-", b"-", b"a-b-1.0nb2", b"x\xff-1", b"plainfile-1", b"broken-1", b"half-1", b"dangling-1", b"loop-1", b"linked-1", b"fifo-1",
 ];
 
 fn build_db(root: &Path, mask: u32) -> std::io::Result<()> {
@@ -808,6 +822,17 @@ fn build_db(root: &Path, mask: u32) -> std::io::Result<()> {
                     std::fs::write(target.join(f), b"x\n")?;
                 }
                 std::os::unix::fs::symlink(&target, &p)?;
+            }
+            b"fifo-1" => {
+                // mandatory entries that exist but are named pipes without a writer: opening one
+                // for reading blocks for ever, and the directory may or may not count as a package
+                std::fs::create_dir_all(&p)?;
+                std::fs::write(p.join("+COMMENT"), b"c\n")?;
+                std::fs::write(p.join("+CONTENTS"), b"bin/x\n")?;
+                let st = std::process::Command::new("mkfifo").arg(p.join("+DESC")).status()?;
+                if !st.success() {
+                    return Err(std::io::Error::new(std::io::ErrorKind::Other, "mkfifo failed"));
+                }
             }
             b"plainfile-1" => std::fs::write(&p, b"not a directory")?,
             b"broken-1" => {
@@ -839,6 +864,11 @@ fn walk_db(root: &Path) {
         for pkg in db {
             let Ok(pkg) = pkg else { continue };
             let _ = (pkg.pkgname().len(), pkg.pkgbase().len(), pkg.pkgversion().len());
+            if pkg.pkgname() == "fifo-1" {
+                // iteration must not block on the pipe; *reading* a pipe nobody writes to blocks
+                // by definition and is not asked for
+                continue;
+            }
             let mut m = Metadata::new();
             for i in 0..14 {
                 if let Ok(content) = pkg.read_metadata(meta_entry(i)) {
@@ -964,6 +994,10 @@ fn plan(thorough: bool) -> Plan {
     }
     for links in 1u32..8 {
         items.push(Item::Pkgdb { lo: links << 9, hi: (links << 9) + 512 });
+    }
+    // the named-pipe shape with every combination of the link shapes and every eighth plain subset
+    for links in 0u32..8 {
+        items.push(Item::Pkgdb { lo: (1 << 12) | (links << 9), hi: ((1 << 12) | (links << 9)) + 512 });
     }
     for n in if thorough { vec![4_000usize, 30_000, 200_000] } else { vec![4_000usize, 30_000] } {
         items.push(Item::PkgdbStrays { n });
